@@ -244,8 +244,9 @@ impl TopologicalSortMachine
             },
         };
 
+        /*  Indices of the frames in the stack that have been visited: the ancestors
+            of the frame currently being handled. */
         let mut indices_in_stack = HashSet::new();
-        indices_in_stack.insert(index);
         let mut stack = vec![starting_frame];
 
         /*  Depth-first traversal using 'stack' */
@@ -280,18 +281,28 @@ impl TopologicalSortMachine
                                         frame.targets[*sub_index].clone()));
                                 }
 
-                                /*  Look for a cycle by checking the stack for another instance of the node we're
-                                    currently on */
+                                /*  Look for a cycle by checking the stack for an ancestor that is the node
+                                    this source refers to */
                                 if indices_in_stack.contains(buffer_index)
                                 {
                                     let mut target_cycle = vec![];
-                                    for f in stack.iter()
+                                    for f in stack.iter().filter(|f| f.visited)
                                     {
                                         target_cycle.push(f.targets[f.sub_index].clone());
                                     }
                                     target_cycle.push(frame.targets[frame.sub_index].clone());
 
                                     return Err(TopologicalSortError::CircularDependence(target_cycle));
+                                }
+
+                                /*  The node might be waiting in the stack because an ancestor also
+                                    depends on it.  That is not a cycle, but the node has to be
+                                    handled before this frame, so move it to the top. */
+                                if let Some(position) = stack.iter().position(|f| f.index == *buffer_index)
+                                {
+                                    let mut waiting_frame = stack.remove(position);
+                                    waiting_frame.sub_index = *sub_index;
+                                    reverser.push(waiting_frame);
                                 }
                             }
                         },
@@ -308,7 +319,6 @@ impl TopologicalSortMachine
 
                 while let Some(f) = reverser.pop()
                 {
-                    indices_in_stack.insert(f.index);
                     stack.push(f);
                 }
             }
